@@ -382,6 +382,10 @@ func Check(p *Prop, o Options) int {
 				viols = append(viols, Violation{Case: r.jCase,
 					Msg:    fmt.Sprintf("the monitored process passed the resident-memory cap of %d MiB during this call into poly (resident %d MiB when it was stopped); journalled call: %s", p.MemCapMiB, r.peakRSS>>20, clipStr(r.jInput, 600)),
 					Replay: map[string]any{"journal_input": r.jInput}})
+			} else if r.jFlight && strings.Contains(r.logTail, "panic:") && !strings.Contains(r.logTail, "github.com/TimothyStiles/poly/") {
+				// an unrecovered panic with no poly frame on the stack is the harness's own fault (calls into poly are
+				// made under recover): not an observation about poly
+				inconcl = append(inconcl, fmt.Sprintf("shard %d: the harness itself panicked while case %q was journalled (%s): %s", i, r.jCase, r.exitErr, r.logTail))
 			} else if r.jFlight {
 				nviol++
 				viols = append(viols, Violation{Case: r.jCase,
